@@ -80,6 +80,9 @@ def gen_step(rnd, names, kinds):
         return ['check']
     if k == 'advance':
         return ['adv', rnd.choice([0.05, .2, 1, 3])]
+    if k == 'clockat':
+        # the wall clock is stepped at a kernel-call boundary of whatever runs next
+        return ['inject_clockstep', rnd.randint(1, 25), rnd.choice([-3600.0, 3600.0, -5.0, 5.0, 86400.0, -0.5])]
     if k == 'dieat':
         return ['inject_death', rnd.randint(1, 14), name, rnd.randint(0, 3), rnd.choice([9, 15, 768, 0])]
     if k == 'status':
